@@ -325,12 +325,29 @@ pub fn verdicts<E: Engine>(
     bytes: &[u8],
     honest_obj: Option<&RangeProof<E::P>>,
 ) -> Result<(bool, bool, bool), String> {
-    let lib_ok = match honest_obj {
-        Some(p) => guarded(|| E::verify(&mut [ps.ctx.transcript()], &[st.clone()], &[p.clone()], VerifyAction::VerifyOnly))?.is_ok(),
-        None => match guarded(|| RangeProof::<E::P>::from_bytes(bytes))? {
-            Ok(p) => guarded(|| E::verify(&mut [ps.ctx.transcript()], &[st.clone()], &[p], VerifyAction::VerifyOnly))?.is_ok(),
-            Err(_) => false,
+    let decoded;
+    let obj = match honest_obj {
+        Some(p) => Some(p),
+        None => {
+            decoded = guarded(|| RangeProof::<E::P>::from_bytes(bytes))?.ok();
+            decoded.as_ref()
         },
+    };
+    let lib_ok = match obj {
+        Some(p) => {
+            let v = guarded(|| E::verify(&mut [ps.ctx.transcript()], &[st.clone()], &[p.clone()], VerifyAction::VerifyOnly))?.is_ok();
+            // the verifying-and-recovering mode must give the same verdict as plain verification
+            let rv = guarded(|| E::verify(&mut [ps.ctx.transcript()], &[st.clone()], &[p.clone()], VerifyAction::RecoverAndVerify))?.is_ok();
+            if v != rv {
+                return Err(format!(
+                    "verdict depends on the verify mode: VerifyOnly {} but RecoverAndVerify {}",
+                    if v { "accepts" } else { "rejects" },
+                    if rv { "accepts" } else { "rejects" }
+                ));
+            }
+            v
+        },
+        None => false,
     };
     let rst = ps.ref_stmt();
     let zero = <E::P as Grp>::zero();
@@ -562,6 +579,7 @@ pub fn def() -> PropertyDef {
             mut_sub::<R>((600, 8000)),
             cheat_sub::<F>((1500, 30_000)),
             cheat_sub::<R>((300, 4000)),
+            crate::props::c03::cancel_sub::<F>((400, 8000)),
         ],
     }
 }
